@@ -289,6 +289,8 @@ pub struct GenOpts {
     pub star_max: usize,
     /// allow the documented repetition cap itself (e.g. 10 transactions)
     pub allow_cap: bool,
+    /// also produce one repetition more than the cap (for the repetition-limit rules)
+    pub over_cap: bool,
 }
 
 fn pick_count(src: &mut Src, min: usize, max: usize, o: &GenOpts) -> usize {
@@ -310,7 +312,7 @@ fn pick_count(src: &mut Src, min: usize, max: usize, o: &GenOpts) -> usize {
         5 => (min + 2).min(hi),
         6 => {
             if o.allow_cap && max != UNBOUNDED && max <= 12 {
-                max
+                if o.over_cap && src.flip() { max + 1 } else { max }
             } else {
                 (min + 1).min(hi)
             }
